@@ -96,22 +96,43 @@ def rust_source_hash() -> str:
     return h.hexdigest()[:16]
 
 
+def _path_tag() -> str:
+    return hashlib.sha256(os.path.realpath(REPO).encode()).hexdigest()[:8]
+
+
 def build_rust() -> str:
     """Build rust/ of the current tree; return the path of the fresh shared object.
 
-    Cached by a hash of the crate's sources; serialised with a file lock so that
-    16 workers asking at once trigger one build.
+    * cached by a hash of the crate's sources (content, not mtime);
+    * one cargo target directory per source *path*: two checkouts sharing a target
+      directory clobber each other's un-hashed deps/lib_pendulum.so while their
+      fingerprints stay "fresh";
+    * on a cache miss the crate's own fingerprint is dropped first, so cargo recompiles
+      it even if the sources changed without their mtime moving forward;
+    * serialised with a file lock so that 16 workers asking at once trigger one build.
     """
     os.makedirs(BUILD, exist_ok=True)
-    tag = rust_source_hash()
-    out = os.path.join(BUILD, f"_pendulum-{tag}.so")
+    ptag, tag = _path_tag(), rust_source_hash()
+    out = os.path.join(BUILD, f"_pendulum-{ptag}-{tag}.so")
     if os.path.exists(out):
         return out
-    with open(os.path.join(BUILD, "cargo.lock"), "w") as lf:
+    with open(os.path.join(BUILD, f"cargo-{ptag}.lock"), "w") as lf:
         fcntl.flock(lf, fcntl.LOCK_EX)
         if os.path.exists(out):
             return out
-        target = os.path.join(BUILD, "cargo")
+        target = os.path.join(BUILD, f"cargo-{ptag}")
+        main_target = os.path.join(BUILD, "cargo-" + hashlib.sha256(b"/repo").hexdigest()[:8])
+        if not os.path.isdir(target) and os.path.isdir(main_target) and target != main_target:
+            # reuse the compiled third-party crates of the main target directory
+            shutil.copytree(main_target, target, symlinks=True)
+        fp = os.path.join(target, "release", ".fingerprint")
+        if os.path.isdir(fp):
+            for d in os.listdir(fp):
+                if d.startswith("_pendulum-"):
+                    shutil.rmtree(os.path.join(fp, d), ignore_errors=True)
+        for stale in (os.path.join(target, "release", "lib_pendulum.so"), os.path.join(target, "release", "deps", "lib_pendulum.so")):
+            if os.path.exists(stale):
+                os.remove(stale)
         env = dict(os.environ)
         env.update(CARGO_TARGET_DIR=target, CARGO_NET_OFFLINE="true", PYO3_PYTHON=PY)
         env["PATH"] = os.path.dirname(_cargo()) + os.pathsep + env.get("PATH", "")
@@ -125,14 +146,28 @@ def build_rust() -> str:
         tmp = out + f".tmp{os.getpid()}"
         shutil.copy2(lib, tmp)
         os.replace(tmp, out)
-        # drop stale objects of earlier source states (disk hygiene)
+        # drop objects of earlier source states of the same checkout (disk hygiene)
         for f in os.listdir(BUILD):
-            if f.startswith("_pendulum-") and f.endswith(".so") and f != os.path.basename(out):
+            if f.startswith(f"_pendulum-{ptag}-") and f.endswith(".so") and f != os.path.basename(out):
                 try:
                     os.remove(os.path.join(BUILD, f))
                 except OSError:
                     pass
     return out
+
+
+def clean_scratch_build() -> None:
+    """remove the cargo target directory and objects of a scratch checkout (VERIF_REPO != /repo)"""
+    if os.path.realpath(REPO) == "/repo":
+        return
+    ptag = _path_tag()
+    shutil.rmtree(os.path.join(BUILD, f"cargo-{ptag}"), ignore_errors=True)
+    for f in os.listdir(BUILD):
+        if f.startswith(f"_pendulum-{ptag}-") or f == f"cargo-{ptag}.lock":
+            try:
+                os.remove(os.path.join(BUILD, f))
+            except OSError:
+                pass
 
 
 class _RustFinder(importlib.abc.MetaPathFinder):
